@@ -208,6 +208,10 @@ def generate(tier, rng):
     for v in (0, 1, 255) if quick else range(0, 256, 5):
         yield nxt(lua_program(rng, 300), 'versions', version=v)
         yield nxt(comment(hi_bytes(rng, 20)), 'versions', version=v)
+    # the two pixel functions alone: every (channel value, byte) pair on every channel, and odd image shapes
+    yield {'stego': 'all-pairs', 'tag': 'stego-all-pairs', 'seed': 1, 'code': '-', 'version': 0, 'regions': '-', 'dest': '-'}
+    for i, (w, h, n) in enumerate([(1, 1, 1), (1, 1, 0), (3, 2, 4), (3, 2, 6), (5, 3, 15), (7, 1, 3), (160, 2, 200), (16, 16, 255)]):
+        yield {'stego': [w, h, n], 'tag': 'stego-shapes', 'seed': 100 + i, 'code': '-', 'version': 0, 'regions': '-', 'dest': '-'}
     # .p8 -> .p8.png -> .p8 chains (observed; the .p8 codec itself belongs to C03)
     import glob
     for f in sorted(glob.glob(os.path.join(lib.REPO, 'tests', 'testdata', '*.p8'))):
@@ -279,8 +283,35 @@ def rows_hex(rows):
     return '|'.join(bytes(r).hex() for r in rows) if rows else '-'
 
 
+def _stego_input(case):
+    rng = random.Random(case['seed'])
+    if case['stego'] == 'all-pairs':
+        # pixel (row v, column b): channels (v, v^0x55, v^0xaa, 255-v), picodata byte b
+        rows = [bytes(x for b in range(256) for x in (v, v ^ 0x55, v ^ 0xaa, 255 - v)) for v in range(256)]
+        pd = bytes(b for v in range(256) for b in range(256))
+        return pd, rows, 256, 256
+    w, h, n = case['stego']
+    return rng.randbytes(n), [rng.randbytes(4 * w) for _ in range(h)], w, h
+
+
+def _run_stego(case):
+    from pico8.game.formatter import p8png
+    pd, rows, w, h = _stego_input(case)
+    obs = {'pd': lib.hx(pd), 'label': rows_hex(rows), 'wh': [w, h]}
+    try:
+        out = p8png.get_pngdata_from_picodata(pd, [bytearray(r) for r in rows], {'planes': 4})
+        obs['out'] = rows_hex(out)
+        back = p8png.get_picodata_from_pngdata(w, h, out, {'planes': 4})
+        obs['back'] = lib.hx(bytes(back))
+    except Exception as e:  # noqa
+        obs['stego_error'] = lib.exc_name(e)
+    return obs
+
+
 def run_impl(case):
     import pngref
+    if case.get('stego'):
+        return _run_stego(case)
     from pico8.game import file as gfile
     from pico8.game.game import Game
     from pico8.game.formatter import p8png
@@ -387,6 +418,11 @@ def _run_chain(case, g, d, obs):
 def model_requests(case, obs):
     if obs.get('timeout') or 'bad_lua' in obs or case.get('chain'):
         return []
+    if case.get('stego'):
+        reqs = ['stego %s 4 %s' % (obs['pd'], obs['label'])]
+        if 'out' in obs:
+            reqs.append('unstego %d %d 4 %s' % (obs['wh'][0], obs['wh'][1], obs['out']))
+        return reqs
     reqs = ['write %s %s %d 4 %s' % (' '.join(obs['regs']), obs['text'], case['version'], obs['label'])]
     if obs['raised'] is None and obs['out'] != '-':
         reqs.append('read 160 205 4 %s' % obs['out'])
@@ -397,6 +433,13 @@ def compare(case, obs, answers):
     if obs.get('timeout'):
         return 'implementation timed out'
     if 'bad_lua' in obs or case.get('chain'):
+        return None
+    if case.get('stego'):
+        exp = ['ERR ' + obs['stego_error']] if 'stego_error' in obs and 'out' not in obs else \
+            ['OK ' + obs['out'], ('OK ' + obs['back']) if 'back' in obs else 'ERR ' + obs.get('stego_error', '?')]
+        for e, a in zip(exp, answers):
+            if e != a:
+                return 'pixel functions: implementation %s..., model %s...' % (e[:70], a[:70])
         return None
     if obs['raised'] is not None:
         exp = 'ERR ' + obs['raised']
@@ -427,6 +470,10 @@ def compare(case, obs, answers):
 def monitor_requests(case, obs):
     if obs.get('timeout') or 'bad_lua' in obs:
         return []
+    if case.get('stego'):
+        if 'back' not in obs:
+            return ['pixels-' + obs.get('stego_error', 'failed')]
+        return ['pixels %s %s %s %s' % (obs['pd'], obs['label'], obs['out'], obs['back'])]
     if case.get('chain'):
         if 'chain_first' not in obs:
             return []
@@ -447,6 +494,8 @@ def monitor_requests(case, obs):
 
 
 def signature(case, obs):
+    if case.get('stego'):
+        return 'C04/stego/%s' % case['tag']
     if case.get('chain'):
         return 'C04/chain/%s' % case['chain']
     if obs.get('raised') is not None:
@@ -465,6 +514,8 @@ def what(case, obs):
 
 
 def describe(case, obs):
+    if case.get('stego'):
+        return {'tag': case['tag'], 'stego': case['stego']}
     d = {'tag': case.get('tag'), 'code_len': len(lib.unhx(case['code'])), 'version': case['version'],
          'regions': case['regions'], 'dest': case['dest']}
     if obs and not obs.get('timeout'):
@@ -476,6 +527,8 @@ def describe(case, obs):
 
 
 def nontrivial_key(case, obs):
+    if case.get('stego'):
+        return ('stego', str(case['stego']))
     if len(case['code']) > 1 and not obs.get('bad_lua'):
         return (case['code'], case['version'], case['dest'])
     return None
@@ -483,6 +536,8 @@ def nontrivial_key(case, obs):
 
 def histogram_key(case, obs):
     k = case.get('tag', 'cart').split('+')[0].split('-limit')[0]
+    if case.get('stego'):
+        return k
     if obs.get('bad_lua'):
         return 'not-a-lua-program'
     if case.get('chain'):
